@@ -100,6 +100,69 @@ class Server:
         return data
 
 
+def _read_response(s, method):
+    """one HTTP/1.1 response from a connection that stays open: headers, then a body framed by Content-Length or chunked encoding (none for HEAD / 204 / 304)"""
+    data = b""
+    while b"\r\n\r\n" not in data:
+        chunk = s.recv(65536)
+        if not chunk:
+            return data
+        data += chunk
+    head, _, rest = data.partition(b"\r\n\r\n")
+    hl = head.lower()
+    status = int(head.split(b"\r\n")[0].split()[1]) if head.startswith(b"HTTP/1.1 ") else 0
+    if method == "HEAD" or status in (204, 304):
+        return head + b"\r\n\r\n"
+    m = re.search(rb"content-length:\s*(\d+)", hl)
+    if m:
+        n = int(m.group(1))
+        while len(rest) < n:
+            chunk = s.recv(65536)
+            if not chunk:
+                break
+            rest += chunk
+        return head + b"\r\n\r\n" + rest[:n]
+    if b"transfer-encoding: chunked" in hl:
+        while not rest.endswith(b"0\r\n\r\n"):
+            chunk = s.recv(65536)
+            if not chunk:
+                break
+            rest += chunk
+        return head + b"\r\n\r\n" + rest
+    return head + b"\r\n\r\n" + rest
+
+
+def _request_after_tokened(srv, method, path, headers, body=b""):
+    """the same request as Server.request, but as the SECOND request of a persistent connection whose first request carried the token
+    (GET /<token>/profile.json): what the server answers must not depend on what the connection was used for before"""
+    try:
+        s = socket.create_connection((srv.host, srv.port), timeout=10)
+    except OSError:
+        return b""
+    try:
+        s.sendall(("GET /%s/profile.json HTTP/1.1\r\nHost: %s:%d\r\nConnection: keep-alive\r\n\r\n" % (srv.token, srv.host, srv.port)).encode())
+        first = _read_response(s, "GET")
+        if not first.startswith(b"HTTP/1.1 200"):
+            return b""
+        req = ("%s %s HTTP/1.1\r\nHost: %s:%d\r\nConnection: close\r\n" % (method, path, srv.host, srv.port)).encode("latin-1")
+        for k, v in headers:
+            req += ("%s: %s\r\n" % (k, v)).encode()
+        if body or method in ("POST", "PUT"):
+            req += b"Content-Length: %d\r\n" % len(body)
+        s.sendall(req + b"\r\n" + body)
+        data = b""
+        while True:
+            chunk = s.recv(65536)
+            if not chunk:
+                break
+            data += chunk
+        return data
+    except (socket.timeout, ConnectionError):
+        return b""
+    finally:
+        s.close()
+
+
 def _parse(data, method, srv):
     if not data.startswith(b"HTTP/1.1 "):
         return {"status": 0, "rejected": True, "hdr": {}, "body": "empty"}
@@ -199,11 +262,16 @@ def evaluate(cases):
             try:
                 tokens.append(srv.token)
                 tokb = K.coq_list([str(b) for b in srv.token.encode()])
-                for path in _paths(srv.token):
-                    for m in METHODS:
-                        for hs in (HSETS if m == "OPTIONS" else [HSETS[0], rng.choice(HSETS[1:])]):
+                plan = [(path, m, hs, False) for path in _paths(srv.token) for m in METHODS
+                        for hs in (HSETS if m == "OPTIONS" else [HSETS[0], rng.choice(HSETS[1:])])]
+                # the token-less paths once more, each as the second request of a connection that was first used with the token
+                plan += [(path, m, HSETS[0], True) for path in ["/profile.json", "/symbolicate/v5", "/source/v1", "/asm/v1", "/", "/x"] for m in METHODS]
+                dist["after_a_tokened_request_on_the_same_connection"] = dist.get("after_a_tokened_request_on_the_same_connection", 0) + sum(1 for x in plan if x[3])
+                for (path, m, hs, second) in plan:
+                    if True:
+                        if True:
                             body = b"{}" if m in ("POST", "PUT") else b""
-                            raw = srv.request(m, path, hs, body)
+                            raw = _request_after_tokened(srv, m, path, hs, body) if second else srv.request(m, path, hs, body)
                             r = _parse(raw, m, srv)
                             h = r["hdr"]
                             p0 = path.split("?")[0]
@@ -224,7 +292,7 @@ def evaluate(cases):
                                                                        "true" if h.get("content-encoding", "") == "gzip" else "false", b2)
                             terms.append("(Some %s, %s, %s, %s, %s, %s)" % ("true" if it[2] == "gz" else "false", tokb, rq, ob,
                                                                            "true" if r["rejected"] else "false", "true" if mentions else "false"))
-                            descr.append({"method": m, "path": path.replace(srv.token, "<token>").replace(srv.token.upper(), "<TOKEN>"),
+                            descr.append({"method": m, "second_request_of_a_connection_first_used_with_the_token": second, "path": path.replace(srv.token, "<token>").replace(srv.token.upper(), "<TOKEN>"),
                                           "request_headers": [k for k, _ in hs], "status": r["status"],
                                           "cors_headers": [k for k in h if k.startswith("access-control")], "body": r["body"]})
                             if len(samples) < 4 and mentions:
